@@ -250,6 +250,8 @@ def run(ctx):
     check_flag_weights(ctx)
     from . import c14
     c14.check_get_av(ctx)        # 'k is the extinction law normalised to -0.4 at V' (ALG-9, EFF-4)
+    from . import c02
+    c02.check_readers(ctx)       # 'log10 model flux': what the fit is given as model fluxes is the convolved flux in mJy, filter by filter (ALG-10)
 
 
 # ---------------------------------------------------------------- self-validation corpus (thorough tier)
